@@ -70,52 +70,61 @@ void save_output(int lineno, const uint8_t *p, size_t n)
 
 static void parse_bytes(const char *s, int k)
 {
-    if (strcmp(s, "-") == 0) {
-        BA[k] = malloc(1);
-        BL[k] = 0;
-        return;
-    }
-    if (*s == '@') {
-        char *e;
-        long ln = strtol(s + 1, &e, 16);
-        size_t n = (ln >= 0 && ln < MAXSAVE && saved[ln]) ? saved_len[ln] : 0;
-        size_t cap = n + strlen(e) / 2 + 1;
-        uint8_t *b = malloc(cap);
-        if (n) memcpy(b, saved[ln], n);
-        while (*e) {
-            char op = *e++;
-            if (op == '+') {
-                while (hexval(e[0]) >= 0 && hexval(e[1]) >= 0) {
-                    b[n++] = (uint8_t)(hexval(e[0]) * 16 + hexval(e[1]));
-                    e += 2;
-                }
-            } else if (op == '&') { /* &N:J  append saved[N][J..] */
-                unsigned long ln2 = strtoul(e, &e, 16), j = 0;
-                if (*e == ':') j = strtoul(e + 1, &e, 16);
-                if (ln2 < MAXSAVE && saved[ln2] && j < saved_len[ln2]) {
-                    size_t add = saved_len[ln2] - j;
-                    b = realloc(b, n + add + strlen(e) / 2 + 1);
-                    memcpy(b + n, saved[ln2] + j, add);
-                    n += add;
-                }
-            } else {
-                unsigned long v = strtoul(e, &e, 16);
-                if (op == '~') { if ((v >> 3) < n) b[v >> 3] ^= (uint8_t)(0x80 >> (v & 7)); }
-                else if (op == '<') { if (v < n) n = v; }
-            }
+    /* <base><modifier>*   base = '-' (empty) | hex digits | @N (output of line N)
+       modifiers: ~K flip bit K, <K truncate to K bytes, +HEX append, &N:J append saved[N][J..] */
+    size_t n = 0, cap = strlen(s) / 2 + 16;
+    uint8_t *b = malloc(cap);
+    const char *e = s;
+    if (*e == '-') {
+        e++;
+    } else if (*e == '@') {
+        char *q;
+        long ln = strtol(e + 1, &q, 16);
+        e = q;
+        if (ln >= 0 && ln < MAXSAVE && saved[ln]) {
+            n = saved_len[ln];
+            cap += n;
+            b = realloc(b, cap);
+            memcpy(b, saved[ln], n);
         }
-        /* exact-size copy so that ASan guards the end */
-        BA[k] = malloc(n ? n : 1);
-        memcpy(BA[k], b, n);
-        BL[k] = n;
-        free(b);
-        return;
+    } else {
+        while (hexval(e[0]) >= 0 && hexval(e[1]) >= 0) {
+            b[n++] = (uint8_t)(hexval(e[0]) * 16 + hexval(e[1]));
+            e += 2;
+        }
     }
-    size_t n = strlen(s) / 2;
+    while (*e) {
+        char op = *e++;
+        if (op == '+') {
+            while (hexval(e[0]) >= 0 && hexval(e[1]) >= 0) {
+                b[n++] = (uint8_t)(hexval(e[0]) * 16 + hexval(e[1]));
+                e += 2;
+            }
+        } else if (op == '&') {
+            char *q;
+            unsigned long ln2 = strtoul(e, &q, 16), j = 0;
+            e = q;
+            if (*e == ':') { j = strtoul(e + 1, &q, 16); e = q; }
+            if (ln2 < MAXSAVE && saved[ln2] && j < saved_len[ln2]) {
+                size_t add = saved_len[ln2] - j;
+                cap += add;
+                b = realloc(b, cap);
+                memcpy(b + n, saved[ln2] + j, add);
+                n += add;
+            }
+        } else {
+            char *q;
+            unsigned long v = strtoul(e, &q, 16);
+            e = q;
+            if (op == '~') { if ((v >> 3) < n) b[v >> 3] ^= (uint8_t)(0x80 >> (v & 7)); }
+            else if (op == '<') { if (v < n) n = v; }
+        }
+    }
+    /* exact-size copy so that ASan guards the end */
     BA[k] = malloc(n ? n : 1);
+    if (n) memcpy(BA[k], b, n);
     BL[k] = n;
-    for (size_t i = 0; i < n; i++)
-        BA[k][i] = (uint8_t)(hexval(s[2 * i]) * 16 + hexval(s[2 * i + 1]));
+    free(b);
 }
 
 /* ---- output ---- */
